@@ -110,6 +110,63 @@ func genLeafConc(r *rand.Rand, tier string) []string {
 		}
 		out = append(out, line("lnconc", st, t, progs, sched))
 	}
+	// Left against a shift: flat composites of 2-4 small finite parts (sometimes a live unlimited tail), one or two
+	// callers that draw tokens, one that keeps asking Left; schedules in BURSTS (a caller is released several times in a
+	// row, so that a whole Next — it has 4-8 scheduling points in this build — fits between two actions of another
+	// caller); two thirds with the points of the composite only (`pts=comp`, leaves atomic: a release = a section).
+	// What a Left returns must be the count at some moment of the call (judged like a free run).
+	ns := 90
+	if tier == "thorough" {
+		ns = 2500
+	}
+	for i := 0; i < ns; i++ {
+		t := &node{kind: "C"}
+		for j, k := 0, 2+r.Intn(3); j < k; j++ {
+			c := r.Intn(5)
+			if c == 4 {
+				c = 0
+			}
+			t.kids = append(t.kids, mkFin(fmt.Sprintf("once:%d", c)))
+		}
+		unstarted := r.Intn(4) == 0
+		if r.Intn(6) == 0 {
+			t.kids = append(t.kids, &node{kind: "U", dur: twentyHours})
+		}
+		var progs []string
+		total := 0
+		for j, k := 0, 1+r.Intn(2); j < k; j++ {
+			var sb strings.Builder
+			for x, l := 0, 2+r.Intn(4); x < l; x++ {
+				if r.Intn(6) == 0 {
+					sb.WriteByte('L')
+				} else {
+					sb.WriteByte('N')
+				}
+				total++
+			}
+			progs = append(progs, sb.String())
+		}
+		l := 2 + r.Intn(3)
+		progs = append(progs, strings.Repeat("L", l))
+		total += l
+		r.Shuffle(len(progs), func(a, b int) { progs[a], progs[b] = progs[b], progs[a] })
+		var sched []string
+		for len(sched) < total*6 {
+			c := strconv.Itoa(r.Intn(len(progs)))
+			for x, run := 0, 1+r.Intn(7); x < run; x++ {
+				sched = append(sched, c)
+			}
+		}
+		st := 1
+		if unstarted {
+			st = 0
+		}
+		ln := line("lnconc", st, t, progs, sched)
+		if r.Intn(3) != 0 {
+			ln += " pts=comp"
+		}
+		out = append(out, ln)
+	}
 	if tier == "thorough" {
 		// every order of two callers (words of length 10) on small leaves
 		for _, c := range []string{"once:1", "once:2"} {
